@@ -793,3 +793,44 @@ pub fn menu_len() -> usize {
     let _ = menu_desc(0);
     MENU_LEN
 }
+
+/// Decodes libFuzzer bytes into a history (same case type as the proptest driver, so a saved
+/// input converts into an ordinary JSON replay).
+pub fn case_from_bytes(data: &[u8]) -> Case {
+    let mut it = data.iter().copied();
+    let mut next = || it.next().unwrap_or(0);
+    let pool_kind = next() % 9;
+    // big payloads are left to the proptest driver: keep fuzz iterations fast
+    let ty = next() % 24;
+    let ty = if (17..21).contains(&ty) { ty - 10 } else { ty };
+    let nblind = 2 + usize::from(next() % 4);
+    let blind_types: Vec<u8> = (0..nblind)
+        .map(|_| {
+            let t = next() % 24;
+            if (17..21).contains(&t) { t - 9 } else { t }
+        })
+        .collect();
+    let cap = [0u8, 1, 1, 2, 2, 3, 4, 8][usize::from(next() % 8)];
+    let must_not_drop = next() % 4 == 0;
+    let profile = next() % 4;
+    let mut ops = Vec::new();
+    let rest: Vec<u8> = it.collect();
+    for ch in rest.chunks(4).take(600) {
+        let g = |i: usize| ch.get(i).copied().unwrap_or(0);
+        ops.push(RawOp {
+            kind: g(0),
+            a: u16::from(g(1)) << 8 | u16::from(g(2)),
+            b: u16::from(g(3)) << 8 | u16::from(g(1)),
+            c: u16::from(g(2)) << 8 | u16::from(g(3)),
+        });
+    }
+    Case {
+        pool_kind,
+        ty,
+        blind_types,
+        cap,
+        must_not_drop,
+        profile,
+        ops,
+    }
+}
